@@ -19,12 +19,28 @@ func newTx(store *store) *Tx {
 	}
 }
 
+// holds reports whether this command already holds the lock of m. sync.RWMutex is not reentrant: a
+// command that names the same key twice (RPOPLPUSH k k, SMOVE s s m, DEL a a ...) must not lock it twice.
+func (tx *Tx) holds(m *metadata) bool {
+	for _, lm := range tx.lockedMetas {
+		if lm == m {
+			return true
+		}
+	}
+	return false
+}
+
 func (tx *Tx) lockKey(key string) *metadata {
 	tx.store.mu.RLock()
 	m, ok := tx.store.metadata.Get(key)
 	tx.store.mu.RUnlock()
 	if ok {
 		verifPoint("hit")
+		if tx.holds(m) && m.writeable {
+			m.count++
+			verifPoint("locked")
+			return m
+		}
 		m.Lock()
 		if m.unlinked {
 			// the record left the index while we waited for its lock: look the key up again
@@ -47,6 +63,11 @@ func (tx *Tx) rLockKey(key string) *metadata {
 	tx.store.mu.RUnlock()
 	if ok {
 		verifPoint("hit")
+		if tx.holds(m) {
+			m.count++
+			verifPoint("locked")
+			return m
+		}
 		m.RLock()
 		if m.unlinked {
 			// the record left the index while we waited for its lock: look the key up again
